@@ -62,6 +62,17 @@ fn main() {
                 }
             }
         }
+        "parse-file" => {
+            // development aid: parse the file's content under the stdlib configuration
+            let text = std::fs::read_to_string(&args[2]).expect("read");
+            engine::install_panic_hook();
+            let r = lq::with_parser(lq::Conf::Stdlib, |p| lq::parse(p, &text));
+            match r {
+                Ok(Ok(_)) => println!("OK"),
+                Ok(Err(e)) => println!("ERR {}", e.lines().next().unwrap_or("")),
+                Err(p) => println!("PANIC {}", p.what),
+            }
+        }
         "list" => {
             for (id, _) in props::ALL {
                 println!("{id}");
